@@ -83,8 +83,13 @@ class ReadSource(object):
                 out.append(all_ones(field.nbits))
             else:
                 v = mn + d
-                if v >= all_ones(field.nbits) and field.nbits > 1 or v >> field.nbits:
+                if v >> field.nbits:
                     raise IllFormed('minimum + difference does not fit the field')
+                if field.nbits > 1 and v == all_ones(field.nbits):
+                    # the sum is the field's all-ones pattern: missing.  For a numeric element FM-94 leaves open whether
+                    # a producer may write a missing entry this way (the library returns the number): noted as ambiguous
+                    if field.kind == 'num':
+                        self.notes.append('numeric entry whose minimum + difference is the all-ones pattern')
                 out.append(v)
         return out
 
@@ -119,9 +124,11 @@ def minimal_diff_width(field, raws):
     return False, mn, w
 
 
-def write_column(w, field, raws, extra_width=0):
+def write_column(w, field, raws, extra_width=0, ones_by_sum=False):
     """One compressed column.  extra_width widens the difference field beyond the minimal
-    legal width (any width that holds the differences is legal)."""
+    legal width (any width that holds the differences is legal).  ones_by_sum: a missing entry of a column that is not
+    missing throughout is written as the difference that makes minimum + difference the field's all-ones pattern
+    (the difference itself is not all ones)."""
     if field.kind == 'const':
         return
     if field.kind == 'str':
@@ -146,6 +153,17 @@ def write_column(w, field, raws, extra_width=0):
     if eq:
         w.uint(0, 6)
         return
+    if ones_by_sum and field.nbits > 1 and any(field.is_missing_raw(x) for x in raws):
+        top = all_ones(field.nbits) - mn
+        while top > (1 << width) - 2:
+            width += 1
+        if width > 63:
+            raise IllFormed('column needs a %d-bit difference: not representable in compressed form' % width)
+        width = min(63, width + extra_width)
+        w.uint(width, 6)
+        for x in raws:
+            w.uint(x - mn, width)        # a missing raw *is* the all-ones pattern
+        return
     if width > 63:
         raise IllFormed('column needs a %d-bit difference: not representable in compressed form' % width)
     width = min(63, width + extra_width)
@@ -166,10 +184,10 @@ def data_bits_uncompressed(subset_fields):
     return w.bitstring()
 
 
-def data_bits_compressed(fields, extra_widths=None):
+def data_bits_compressed(fields, extra_widths=None, ones_by_sum=None):
     w = BitWriter()
     for i, f in enumerate(fields):
-        write_column(w, f, f.raws, extra_widths[i] if extra_widths else 0)
+        write_column(w, f, f.raws, extra_widths[i] if extra_widths else 0, bool(ones_by_sum and ones_by_sum[i]))
     return w.bitstring()
 
 
@@ -244,7 +262,7 @@ def read_data(tree, tables, nsub, compressed, reader):
     return walk_all(tree, tables, nsub, compressed, lambda i: src)
 
 
-def data_bits(decoded, extra_widths=None):
+def data_bits(decoded, extra_widths=None, ones_by_sum=None):
     if decoded.compressed:
-        return data_bits_compressed(decoded.subsets[0].fields, extra_widths)
+        return data_bits_compressed(decoded.subsets[0].fields, extra_widths, ones_by_sum)
     return data_bits_uncompressed([w.fields for w in decoded.subsets])
